@@ -70,6 +70,7 @@ func (q *memoryQueue) DequeueIfValueRelevant() string {
 		return ""
 	}
 
+	verifhook.Event("mq.pop", queueItem.value)
 	return queueItem.value
 }
 
@@ -81,6 +82,7 @@ func (q *memoryQueue) Remove(item string) {
 	for i, v := range q.queue {
 		if v.value == item {
 			heap.Remove(&q.queue, i)
+			verifhook.Event("mq.remove", item)
 			return
 		}
 	}
